@@ -149,9 +149,17 @@ inline Units gen_string(Entropy &e, unsigned maxlen = 12) {
     }
     return s;
 }
+// switch: the small key alphabet is made of pairs with one 32-bit hash (StringUtils::Hash does not see the first unit of a longer key:
+// year / pear) of which some are a key and the key plus one unit (t / ti, l / la, m / mb)
+inline bool &hash_twin_keys() {
+    static thread_local bool on = false;
+    return on;
+}
 inline Units gen_key(Entropy &e) {
     // small alphabet so that duplicate keys occur, plus arbitrary strings
-    static const char *small[] = {"a", "b", "k", "key", "", "a b", "x1", "id"};
+    static const char *small1[] = {"a", "b", "k", "key", "", "a b", "x1", "id"};
+    static const char *small2[] = {"ti", "t", "pear", "year", "la", "l", "mb", "m"};
+    const char *const *small    = hash_twin_keys() ? small2 : small1;
     if (e.chance(70)) {
         Units u;
         for (const char *p = small[e.below(8)]; *p; ++p) {
